@@ -829,7 +829,8 @@ func c07_4(c *core.Ctx, p *core.Prog) {
 				if iff == nil {
 					continue
 				}
-				if cmp, ok := iff.Cond.(*ssa.BinOp); ok && cmp.Op == token.NEQ && core.IsNilConst(cmp.Y) && isErr(cmp.X.Type()) && core.GuardedBy(iff, true, cl) {
+				// `if err != nil { release }` or the guard-clause form `if err == nil { return }; release`
+				if cmp, ok := iff.Cond.(*ssa.BinOp); ok && (cmp.Op == token.NEQ || cmp.Op == token.EQL) && core.IsNilConst(cmp.Y) && isErr(cmp.X.Type()) && core.GuardedBy(iff, cmp.Op == token.NEQ, cl) {
 					okRel = true
 				}
 			}
